@@ -143,6 +143,19 @@ CLAIMED = {
               "conversion raises ValueError (no converted document, hence outside this property)."),
         technique="Lean 4 proof (induction over the id search, list membership) + pipeline correspondence + reference-graph search",
         ref="DESIGN.md §4 C08"),
+    "C14": dict(
+        text=("Lean 4 theorems by mutual induction over the tree (no oracle): for any local filter pass — and hence for each of "
+              "remove_nonsvg_content, remove_processing_instructions, remove_anonymous_symbols, remove_title_meta_desc as modelled — "
+              "the result is the same with and without the noise that pass removes, inserted at ANY position (incl. inside defs, "
+              "gradients, clipPaths), with ANY subtree, and with foreign attributes on any element (side condition: not directly "
+              "before a text node, lxml's tail rule). The four passes are tied to the code on D and N(D); the end-to-end relation "
+              "convert(N(D)) = convert(D) up to gradient-id relabelling, defs order and gradient rounding — incl. comments, "
+              "whitespace, XML declaration and attribute-less wrapper groups — is judged on metamorphic pairs on every run. Not "
+              "proved: the composition of the four passes for mixed noise kinds and the wrapper-group case."),
+        note=("Trusted: Lean kernel; propext only; lxml parser options (remove_comments, remove_blank_text); harness "
+              "canonicalisation (unused xmlns declarations left on inner elements are ignored, see DESIGN §6)."),
+        technique="Lean 4 proof (mutual structural induction on an inductive noise-insertion relation) + cleanup-pass correspondence + metamorphic conversion search",
+        ref="DESIGN.md §4 C14"),
 }
 
 def main():
